@@ -1,9 +1,13 @@
 """C05 part: pointer-level alias theorems, second batch (continues c05_ptr on the same memory model,
-lean/Mpir/Model/AliasMem.lean): mpz_rootrem (theorem for the model of c05_ptr), mpz_mul (the hand-made block management
-of mul.c: free + allocate, `free_me` when the destination block is an operand, TMP copy of an aliased operand), and
-further functions in lean/Mpir/Model/AliasGcdext.lean / AliasPowm.lean.  Theorems: lean/MpirProofs/Props/C05_ptr2.lean.
-Tie: ops `alias_*` of harness/ops_alias2.c / lean/Mpir/Ops/Alias2.lean — the real function on four variables in
-exact-size blocks with EVERY index assignment; value, ALLOC and "block changed" of all four variables are compared."""
+lean/Mpir/Model/AliasMem.lean; new files only).  mpz: mpz_rootrem (theorem for the model of c05_ptr), mpz_mul (hand-made block
+management of mul.c: free + allocate, `free_me`, TMP copy of an aliased operand), mpz_gcdext (NULL outputs, three local mpz
+variables), mpz_powm / mpz_powm_ui, mpz_addmul / mpz_submul, mpz_sqrt, mpz_lcm, mpz_invert, mpz_root, mpz_remove, mpz_bin_ui
+(lean/Mpir/Model/AliasMul.lean, AliasGcdext.lean, AliasPowm.lean, AliasMisc.lean).  mpf: a pointer-level mpf model (header
+{prec, size, exp, ptr}, block never reallocated, operands possibly longer than PREC + 1 limbs: mpf_set_prec_raw) with mpf_div,
+mpf_mul, mpf_sqrt, mpf_div_ui, mpf_floor / ceil / trunc, mpf_mul_2exp / div_2exp, mpf_ui_div (lean/Mpir/Model/AliasMpf.lean,
+AliasMpf3.lean), each bit-exact against the C13 model lean/Mpir/Model/Mpf.lean.  Theorems: lean/MpirProofs/Props/C05_ptr2.lean.
+Tie: ops `alias_*` of harness/ops_alias2.c / lean/Mpir/Ops/Alias2.lean — the real function on four mpz (three mpf) variables
+with EVERY index assignment; value, ALLOC and "block changed" (mpf: prec, size, exp, limbs) of all variables are compared."""
 from genlib import *
 
 LEAN_MODULES = ["MpirProofs.Props.C05_ptr2"]
@@ -15,10 +19,16 @@ THEOREMS = ["Mpir.AliasMem.rootrem_ptr_spec", "Mpir.AliasMem.rootrem_exceptions"
             "Mpir.AliasMem.mpz_sqrt_ptr_spec", "Mpir.AliasMem.mpz_lcm_ptr_spec", "Mpir.AliasMem.mpz_invert_ptr_spec"]
 PINS = [("mpz/mul.c", None), ("gmp-mparam.h", "MUL_KARATSUBA_THRESHOLD"), ("mpz/gcdext.c", None), ("mpz/powm.c", None), ("mpz/powm_ui.c", None),
         ("mpz/aorsmul.c", None), ("mpz/aorsmul_i.c", None), ("mpz/sqrt.c", None), ("mpz/lcm.c", None), ("mpz/invert.c", None), ("mpf/div.c", None), ("mpf/mul.c", None), ("mpf/sqrt.c", None), ("mpf/div_ui.c", None)]
-TRUSTED = ["hand-written pointer-level models lean/Mpir/Model/AliasMul.lean (tied by the ops alias_mul … of harness/ops_alias2.c on every "
-           "index assignment: values, ALLOC and which blocks were replaced; source pins on mul.c and MUL_KARATSUBA_THRESHOLD)"]
-ASSUMPTIONS = ["pointer-level model: mpn_mul / mpn_mul_basecase / mpn_sqr / mpn_mul_1 are taken at their contract on values (limb-level proofs: C01); "
-               "a product that overlaps a factor is an error of the model (mpn/generic/mul.c ASSERTs), mpn_mul_1 in place is not"]
+TRUSTED = ["hand-written pointer-level models lean/Mpir/Model/AliasMul.lean, AliasGcdext.lean, AliasPowm.lean, AliasMisc.lean, AliasMpf.lean, AliasMpf3.lean "
+           "(tied by the ops alias_* of harness/ops_alias2.c on every index assignment: values, ALLOC and which blocks were replaced; mpf: every header "
+           "field and the limbs of all three variables; source pins on the mirrored C files and MUL_KARATSUBA_THRESHOLD)"]
+ASSUMPTIONS = ["pointer-level models: the mpn callees (mpn_mul, mpn_mul_1, mpn_tdiv_qr, mpn_rootrem, mpn_sqrtrem, mpn_gcdext, mpn_powm …) are taken at their contract on "
+               "values (limb-level proofs: C01, C02, C07, C08, C09); an operand overlap their contract forbids is an error of the model, in-place operation the "
+               "contract allows is not; TMP areas carved out of one TMP block in the C (mpf/div.c:114-119) are separate blocks in the model",
+               "mpz_powm / mpz_powm_ui / mpz_remove / mpz_bin_ui / mpz_invert: the result VALUE is that of the value-level models (Powm.mpz_powm, Numth.mpz_remove, "
+               "Numth.mpz_bin_ui, Gcd.mpz_invert: C08, C07, C11); the pointer-level theorem is about which block is read after which was written",
+               "mpf pointer model: the block length is kept in the model (C does not store it); object invariant PREC + 1 <= block length (mpf_init2 allocates "
+               "PREC + 1 limbs, mpf_set_prec_raw only lowers PREC); mpf_sqrt needs 1 <= PREC (the library never makes a smaller one)"]
 
 def _mag(rng, limbs):
     if limbs == 0: return 0
